@@ -270,6 +270,11 @@ def _(rng, t, i): t[i] = t[i][:-1] + b'\\"' if not t[i].endswith(b'\\"') else t[
 def _(rng, t, i): t[i] = b'""'; return t
 @edit('string-too-long', 'string')
 def _(rng, t, i): t[i] = b'"' + b'a' * 8192 + b'"'; return t
+# the limit counts the characters of the token, however they are spelt: the last ones as escaped delimiters
+@edit('string-too-long-by-escaped-quotes', 'string')
+def _(rng, t, i): k = rng.choice([1, 2, 40]); t[i] = b'"' + b'a' * (8192 - k) + b'\\"' * k + b'"'; return t
+@edit('pattern-too-long-by-escaped-delimiters', 'pattern')
+def _(rng, t, i): k = rng.choice([1, 3, 40]); t[i] = b'/' + b'a' * (8192 - k) + b'\\/' * k + b'/'; return t
 @edit('unterminated-pattern', 'pattern')
 def _(rng, t, i): t[i] = b'/abc'; return t[:i + 1]
 @edit('pattern-too-long', 'pattern')
